@@ -204,8 +204,9 @@ def bounding_columns(fs, df, fchans, brange):
     if brange is None:
         return 0, fchans
     fmin = fs[0]
-    lo = int(np.rint((brange[0] - fmin) / df))
-    hi = int(np.rint((brange[1] - fmin) / df))
+    # (bounds far outside the band, including infinite ones, select up to the band's edge)
+    lo = int(np.rint(np.clip((brange[0] - fmin) / df, -2.0, fchans + 2.0)))
+    hi = int(np.rint(np.clip((brange[1] - fmin) / df, -2.0, fchans + 2.0)))
     lo = min(max(lo, 0), fchans)
     hi = min(max(hi, 0), fchans)
     if hi < lo:
